@@ -3,7 +3,7 @@ import CssVerif.Lemmas.Urls
 # C19 — URL enumeration/replacement exact; flattening @imports preserves meaning
 
 Property theorems only (helpers are in `Lemmas/Urls.lean`). Model: `Model/Urls.lean`, tied to
-`cssutils/__init__.py:183-415`, `cssimportrule.py:273-346`, `cssstylesheet.py:552-884` and to CPython's
+`cssutils/__init__.py:183-458`, `cssimportrule.py:273-362`, `cssstylesheet.py:496-913` and to CPython's
 `posixpath` / `urllib.parse` by the correspondence of `tools/harness/c19.py`.
 -/
 namespace CssVerif.C19
@@ -84,29 +84,20 @@ example : getUrls [.imp [0x69] [] false [] [],
                    .media [0x73] [.style [0x61] [⟨[0x62], [.tok [0x78], .uri [0x75]], []⟩]]]
     = [[0x69], [0x70], [0x6D], [0x75]] := by decide
 
-/-! ### completeness: "every url() value"
+/-! ### completeness: "every url() value" (was the known finding C19-url-in-function; `_values` now descends into
+the arguments of functions) -/
 
-Full statement (does NOT hold, known finding C19-url-in-function):
-  `∀ sh, getUrls sh = allUrls sh`   where `allUrls` also descends into function arguments.
-`_uri_values` (`__init__.py:215-221`) iterates the top-level items of a property value only. -/
+/-- `getUrls` yields every URL of the sheet — imports, and every url() of every declaration at any depth of
+function nesting — in document order: it is the independent enumeration `allUrls` -/
+theorem getUrls_complete (sh : Sheet) : getUrls sh = allUrls sh := by
+  have : (fun st => uriValues st) = fun st => uriValuesDeep st := funext uriValues_deep
+  simp only [getUrls, allUrls]
+  rw [show (styleDeclsL sh).flatMap uriValues = (styleDeclsL sh).flatMap uriValuesDeep from by
+    exact congrArg (fun f => (styleDeclsL sh).flatMap f) this]
 
-/-- what holds: on sheets without a url() inside a function argument `getUrls` yields every URL -/
-theorem getUrls_complete_partial (sh : Sheet) (h : FlatSheet sh) : getUrls sh = allUrls sh := by
-  simp only [getUrls, allUrls, flatMap_uriValuesDeep_flat _ h]
-
-/-- `a{background:image-set(url(x.png) 1x)}`: the URL is not enumerated (and hence never replaced or re-based) -/
-theorem getUrls_misses_nested_url :
-    getUrls [.style [0x61] [⟨[0x62], [.fn [0x69] [.uri [0x78], .tok [0x31]]], []⟩]] = [] ∧
-    allUrls [.style [0x61] [⟨[0x62], [.fn [0x69] [.uri [0x78], .tok [0x31]]], []⟩]] = [[0x78]] := by decide
-
-example : FlatSheet [.style [0x61] [⟨[0x62], [.uri [0x78], .fn [0x66] [.tok [0x31]]], []⟩]] := by
-  intro st hst d hd c hc
-  simp [styleDeclsL, styleDecls] at hst
-  subst hst
-  simp at hd
-  subst hd
-  simp at hc
-  rcases hc with rfl | rfl <;> simp [Comp.flat, compsUrlsDeep, compUrlsDeep]
+/-- `a{background:image-set(url(x.png) 1x)}`: the URL is enumerated, and `replaceUrls` reaches it -/
+theorem getUrls_reaches_nested_url :
+    getUrls [.style [0x61] [⟨[0x62], [.fn [0x69] [.uri [0x78], .tok [0x31]]], []⟩]] = [[0x78]] := by decide
 
 /-! ## T19.2 — re-basing: the path algebra of `Replacer` (`os.path.normpath`) against `urljoin`
 
@@ -115,33 +106,49 @@ the @import href (`css/sub/a.css` ↦ `[css, sub]`), `g` = its file name, `U ++ 
 `url()` of the imported sheet. `normComps false` is the loop of `os.path.normpath` on a relative path, `rdsSegs` the
 dot-segment removal of `urljoin`; the model's `normpath`/`urljoin` are built from exactly these. -/
 
-/-- Full statement (does NOT hold for every URL, see the known findings below):
-  `∀ T h u, u relative → urljoin T (replacer h u) = urljoin (urljoin T h) u`.
-What is proved is its path algebra under the guards: `h` and `u` are path-only on the same origin, no empty
-segment (no `//`, no trailing `/`), the last segment of `u` is a name (not `.`/`..`), and the characters are ones
-`quote` leaves alone (`quote_identity_on_safe`); query/fragment are carried over verbatim (`replacer_relative`).
+/-- T19.2 [W1], now for EVERY relative path-only URL (after the fixes of `Replacer`): seen from the importing
+(combined) sheet the re-based path `rebasedSegs D U f` — `normpath (D ++ U ++ [f])`, with the slash put back when the
+URL ends in `/`, `.` or `..` — resolves to the path the original URL `U…/f` resolved to from the imported sheet's own
+location: for every base directory `T` (also when `..` climbs above the root, where `urljoin` clamps), every import
+directory `D`, every `U` and EVERY last segment `f` (a name, empty, `.` or `..`).
+Guard left: the segments of `D` and `U` are non-empty (`a//b`: `urljoin` and `normpath` both drop the empty
+segment; covered by the oracle, not by this theorem). Characters: `quote` leaves unreserved and reserved path
+characters alone (`quote_identity_on_safe`) and percent-encodes the others, which does not change the URI meant;
+query and fragment are carried over verbatim (`replacer_relative`). -/
+theorem rebased_url_resolves_identically (T D U : List Str) (g f : Str)
+    (hD : ∀ c ∈ D, c ≠ []) (hU : ∀ c ∈ U, c ≠ []) (hg : Normal g) :
+    rdsSegs (T ++ rebasedSegs D U f)
+      = rdsSegs ((rdsSegs (T ++ D ++ [g])).dropLast ++ (U ++ [f])) := by
+  by_cases hf : f = [] ∨ f = dot ∨ f = dotdot
+  · exact rdsSegs_dir_url T D U g f hD hU hg hf
+  · have hfn : Normal f := ⟨fun e => hf (Or.inl e), fun e => hf (Or.inr (Or.inl e)), fun e => hf (Or.inr (Or.inr e))⟩
+    simp only [rebasedSegs, hf, ↓reduceIte]
+    exact rebased_segs T D U g f hD hU hg hfn
 
-T19.2 [W1]: seen from the importing (combined) sheet the re-based URL `norm (D ++ U ++ [f])` resolves to the
-path the original URL resolved to from the imported sheet's own location — for every base directory (also when
-`..` climbs above the root, where `urljoin` clamps), every import directory and every relative URL whose
-segments are non-empty and whose last segment is a name. -/
-theorem rebased_url_resolves_identically_partial (T D U : List Str) (g f : Str)
+/-- the case of a URL that names a file, spelled out: the re-based path is `normpath` of the joined segments -/
+theorem rebased_file_url_resolves_identically (T D U : List Str) (g f : Str)
     (hD : ∀ c ∈ D, c ≠ []) (hU : ∀ c ∈ U, c ≠ []) (hg : Normal g) (hf : Normal f) :
     rdsSegs (T ++ normComps false (D ++ U ++ [f]))
-      = rdsSegs ((rdsSegs (T ++ D ++ [g])).dropLast ++ (U ++ [f])) := by
-  rw [rdsSegs_two_step T D (U ++ [f]) g hg (by simp)]
-  have h : ∀ c ∈ D ++ U, c ≠ [] := by
-    intro c hc
-    rcases List.mem_append.mp hc with hc | hc
-    · exact hD c hc
-    · exact hU c hc
-  have := rdsSegs_norm T (D ++ U) f h hf
-  simpa [List.append_assoc] using this
+      = rdsSegs ((rdsSegs (T ++ D ++ [g])).dropLast ++ (U ++ [f])) :=
+  rebased_segs T D U g f hD hU hg hf
+
+/-- `rebasedSegs` is what the model of `Replacer` computes: `url(img/)`, `url(.)`, `url(..)`, `url(../x.png)` in
+`css/a.css` (was the known finding C19-rebase-trailing-slash for the first three) -/
+example :
+    replacer (CssVerif.Proto.cps "css/a.css") (CssVerif.Proto.cps "img/") = .ok (CssVerif.Proto.cps "css/img/") ∧
+    joinWith cSlash (rebasedSegs [CssVerif.Proto.cps "css"] [CssVerif.Proto.cps "img"] []) = CssVerif.Proto.cps "css/img/" ∧
+    replacer (CssVerif.Proto.cps "css/a.css") (CssVerif.Proto.cps ".") = .ok (CssVerif.Proto.cps "css/") ∧
+    joinWith cSlash (rebasedSegs [CssVerif.Proto.cps "css"] [] dot) = CssVerif.Proto.cps "css/" ∧
+    replacer (CssVerif.Proto.cps "css/a.css") (CssVerif.Proto.cps "..") = .ok (CssVerif.Proto.cps "./") ∧
+    joinWith cSlash (rebasedSegs [CssVerif.Proto.cps "css"] [] dotdot) = CssVerif.Proto.cps "./" ∧
+    replacer (CssVerif.Proto.cps "css/a.css") (CssVerif.Proto.cps "../x.png") = .ok (CssVerif.Proto.cps "x.png") ∧
+    joinWith cSlash (rebasedSegs [CssVerif.Proto.cps "css"] [dotdot] (CssVerif.Proto.cps "x.png")) = CssVerif.Proto.cps "x.png" := by
+  decide
 
 /-- nested imports: re-basing against the inner @import (`D2`) and then against the outer one (`D1`) resolves like
 the original URL seen through both directories — the per-edge statement composes (the output of one re-basing
 satisfies the guard of the next) -/
-theorem rebasing_composes_partial (T D1 D2 U : List Str) (f : Str)
+theorem rebasing_composes (T D1 D2 U : List Str) (f : Str)
     (h1 : ∀ c ∈ D1, c ≠ []) (h2 : ∀ c ∈ D2, c ≠ []) (hU : ∀ c ∈ U, c ≠ []) (hf : Normal f) :
     rdsSegs (T ++ normComps false (D1 ++ normComps false (D2 ++ U ++ [f])))
       = rdsSegs (T ++ (D1 ++ (D2 ++ U ++ [f]))) := by
@@ -187,24 +194,63 @@ example : rdsSegs ([[]] ++ normComps false ([[0x63]] ++ [dotdot, dotdot, dotdot]
     rdsSegs ((rdsSegs ([[]] ++ [[0x63]] ++ [[0x61]])).dropLast ++ ([dotdot, dotdot, dotdot] ++ [[0x78]]))
       = [[0x78]] := by decide
 
-/-- `Replacer` keeps anything absolute: a URL with a scheme, with a host (`//host/…`) or with a root-relative path
-is returned as it is (`__init__.py:281-283`) -/
-theorem replacer_keeps_absolute (base uri : Str) (s : Split) (h : urlsplit uri = .ok s)
-    (habs : s.scheme ≠ [] ∨ s.netloc ≠ [] ∨ startsWith [cSlash] s.path = true) :
-    replacerCall base uri = .ok uri := by
+/-- `Replacer` keeps anything absolute: a URL with a scheme is returned as it is -/
+theorem replacer_keeps_absolute (r : ReplacerState) (uri : Str) (s : Split) (h : urlsplit uri = .ok s)
+    (habs : s.scheme ≠ []) : replacerCall r uri = .ok uri := by
   simp only [replacerCall, h]
   rw [if_pos habs]
 
-/-- … and for a relative one it re-bases the path only: query and fragment are put back unchanged (fix dd65231) -/
-theorem replacer_relative (base uri : Str) (s : Split) (h : urlsplit uri = .ok s)
-    (hrel : s.scheme = [] ∧ s.netloc = [] ∧ startsWith [cSlash] s.path = false) (p : Str)
-    (hq : quote (normpath (pjoin base [(psplit s.path).1, (psplit s.path).2])) = .ok p) :
-    replacerCall base uri = .ok (urlunsplit { scheme := [], netloc := [], path := p, query := s.query,
-                                              fragment := s.fragment }) := by
+/-- a host-relative (`/x.png`) or scheme-relative (`//cdn/x.png`) URL of a sheet imported with a relative href is
+returned as it is: it means the same from the importing sheet -/
+theorem replacer_keeps_host_relative (r : ReplacerState) (uri : Str) (s : Split) (h : urlsplit uri = .ok s)
+    (hs : s.scheme = []) (habs : s.netloc ≠ [] ∨ startsWith [cSlash] s.path = true)
+    (hr : r.scheme = [] ∧ r.location = []) : replacerCall r uri = .ok uri := by
   simp only [replacerCall, h]
-  rw [if_neg (by simp [hrel.1, hrel.2.1, hrel.2.2]), hq]
+  rw [if_neg (by simp [hs]), if_pos habs, if_pos hr]
 
-/-- `quote(…, safe='/%')` is the identity on unreserved characters, `/` and `%` (fix dd65231: escapes survive) -/
+/-- … and of a sheet imported with an absolute or scheme-relative href it is completed with the scheme and host of
+that href (was the known finding C19-rebase-other-origin) -/
+theorem replacer_completes_host_relative (r : ReplacerState) (uri : Str) (s : Split) (h : urlsplit uri = .ok s)
+    (hs : s.scheme = []) (habs : s.netloc ≠ [] ∨ startsWith [cSlash] s.path = true)
+    (hr : ¬ (r.scheme = [] ∧ r.location = [])) :
+    replacerCall r uri = .ok (urlunsplit {
+      scheme := r.scheme, netloc := (if s.netloc ≠ [] then s.netloc else r.location),
+      path := s.path, query := s.query, fragment := s.fragment }) := by
+  simp only [replacerCall, h]
+  rw [if_neg (by simp [hs]), if_pos habs, if_neg hr]
+
+/-- a relative URL with a path: the path is re-based (`normpath` of the join with the import directory, the slash put
+back for a directory URL), scheme and host of the @import href are put in front, query and fragment are put back
+unchanged (fix dd65231) -/
+theorem replacer_relative (r : ReplacerState) (uri : Str) (s : Split) (h : urlsplit uri = .ok s)
+    (hrel : s.scheme = [] ∧ s.netloc = [] ∧ startsWith [cSlash] s.path = false) (hp : s.path ≠ []) (p : Str)
+    (hq : quote (let c := normpath (pjoin r.base [(psplit s.path).1, (psplit s.path).2])
+                 if ((psplit s.path).2 = [] ∨ (psplit s.path).2 = dot ∨ (psplit s.path).2 = dotdot) ∧
+                     c.getLast? ≠ some cSlash then c ++ [cSlash] else c) = .ok p) :
+    replacerCall r uri = .ok (urlunsplit {
+      scheme := r.scheme, netloc := r.location,
+      path := (if (p.takeWhile (· ≠ cSlash)).contains cColon then cDot :: cSlash :: p else p),
+      query := s.query, fragment := s.fragment }) := by
+  simp only [replacerCall, h]
+  rw [if_neg (by simp [hrel.1]), if_neg (by simp [hrel.2.1, hrel.2.2])]
+  simp only [hp, ↓reduceIte]
+  simp only at hq
+  rw [hq]
+
+/-- a reference without a path (`#frag`, `?q`, empty) means the imported sheet itself: it is re-based to the path of
+the @import href, with that href's query if it has none (was the known finding C19-rebase-same-document) -/
+theorem replacer_same_document (r : ReplacerState) (uri : Str) (s : Split) (h : urlsplit uri = .ok s)
+    (hrel : s.scheme = [] ∧ s.netloc = []) (hp : s.path = []) (p : Str) (hq : quote r.path = .ok p) :
+    replacerCall r uri = .ok (urlunsplit {
+      scheme := r.scheme, netloc := r.location,
+      path := (if (p.takeWhile (· ≠ cSlash)).contains cColon then cDot :: cSlash :: p else p),
+      query := (if s.query ≠ [] then s.query else r.query), fragment := s.fragment }) := by
+  simp only [replacerCall, h]
+  rw [if_neg (by simp [hrel.1]), if_neg (by simp [hrel.2, hp, startsWith, List.isPrefixOf])]
+  simp only [hp, ↓reduceIte, hq]
+
+/-- `quote(…, safe="/%:@!$&'()*+,;=")` is the identity on unreserved characters, `%` and the characters RFC 3986
+allows in a path (fix dd65231: escapes survive; was the known finding C19-rebase-reserved-chars) -/
 theorem quote_identity_on_safe (s : Str) (h : QuoteSafe s) : quote s = .ok s := quote_safe s h
 
 /-- the string-level `normpath` of a relative path is the segment-level `normComps false` -/
@@ -236,7 +282,7 @@ theorem replacer_on_strings (D U : List Str) (g f : Str) (hD : ∀ s ∈ D, Simp
       = .ok (joinWith cSlash (normComps false (D ++ U ++ [f]))) :=
   replacer_on_segments D U g f hD hU hg hf hfn
 
-/-- … which resolves, by `rebased_url_resolves_identically_partial`, to what the original URL resolved to -/
+/-- … which resolves, by `rebased_url_resolves_identically`, to what the original URL resolved to -/
 theorem replacer_on_strings_resolves (T D U : List Str) (g f : Str) (hD : ∀ s ∈ D, SimpleSeg s)
     (hU : ∀ s ∈ U, SimpleSeg s) (hg : SimpleSeg g) (hgn : Normal g) (hf : SimpleSeg f) (hfn : Normal f) :
     ∃ r, replacer (joinWith cSlash (D ++ [g])) (joinWith cSlash (U ++ [f])) = .ok r ∧
@@ -254,7 +300,7 @@ theorem replacer_on_strings_resolves (T D U : List Str) (g f : Str) (hD : ∀ s 
     intro e; rw [e] at hlast; simp at hlast
   rw [splitOn_joinWith cSlash _ hne
     (fun s hs => simple_noSlash s (hall s (normComps_subset false _ s hs)))]
-  exact rebased_url_resolves_identically_partial T D U g f (fun c hc => (hD c hc).1) (fun c hc => (hU c hc).1) hgn hfn
+  exact rebased_file_url_resolves_identically T D U g f (fun c hc => (hD c hc).1) (fun c hc => (hU c hc).1) hgn hfn
 
 /-- **T19.2 on strings [W2]** — main sheet at `scheme://host/T…/m`, `@import "D…/g"`, `url(U…/f)` in the imported
 sheet, every segment made of unreserved characters and `%` (`.` and `..` allowed in `D` and `U`; `g`, `f` names),
@@ -295,58 +341,83 @@ theorem normpath_of_segments (cs : List Str) (f : Str) (h0 : ∀ s ∈ cs ++ [f]
     normpath (joinWith cSlash (cs ++ [f])) = joinWith cSlash (normComps false (cs ++ [f])) :=
   normpath_joinWith cs f h0 h1 hf
 
-/-! ### known findings of the re-basing, machine-checked on the model (each also fails on the implementation) -/
+/-! ### the four former findings of the re-basing, now machine-checked as repaired on the model
+(witnesses of `known/C19.json`, status fixed; the same inputs are replayed on the implementation every run) -/
 section
 open CssVerif.Proto
 
-/-- C19-rebase-same-document: `url(#frag)` of a sheet imported from `css/` becomes `url(css#frag)` -/
-theorem rebase_breaks_same_document_reference :
-    replacer (cps "css/a.css") (cps "#frag") = .ok (cps "css#frag") ∧
-    urljoin (cps "http://h/base/main.css") (cps "css#frag") = .ok (cps "http://h/base/css#frag") ∧
-    urljoin (cps "http://h/base/css/a.css") (cps "#frag") = .ok (cps "http://h/base/css/a.css#frag") := by decide
+/-- was C19-rebase-same-document: `url(#frag)` of `css/a.css` means `css/a.css#frag`, and so does the re-based URL -/
+theorem rebase_keeps_same_document_reference :
+    replacer (cps "css/a.css") (cps "#frag") = .ok (cps "css/a.css#frag") ∧
+    urljoin (cps "http://h/base/main.css") (cps "css/a.css#frag")
+      = urljoin (cps "http://h/base/css/a.css") (cps "#frag") ∧
+    replacer (cps "css/a.css") (cps "?q=1") = .ok (cps "css/a.css?q=1") ∧
+    replacer (cps "css/a.css?v=2") [] = .ok (cps "css/a.css?v=2") := by decide
 
-/-- C19-rebase-other-origin: only the path of the @import href is used, so the re-based URL points to the main
-sheet's host -/
-theorem rebase_loses_the_host_of_the_import :
-    replacer (cps "http://other/css/a.css") (cps "x.png") = .ok (cps "/css/x.png") ∧
-    urljoin (cps "http://h/base/main.css") (cps "/css/x.png") = .ok (cps "http://h/css/x.png") ∧
-    urljoin (cps "http://other/css/a.css") (cps "x.png") = .ok (cps "http://other/css/x.png") := by decide
+/-- was C19-rebase-other-origin: scheme and host of the @import href are kept, for relative, host-relative and
+scheme-relative URLs of the imported sheet -/
+theorem rebase_keeps_the_host_of_the_import :
+    replacer (cps "http://other/css/a.css") (cps "x.png") = .ok (cps "http://other/css/x.png") ∧
+    urljoin (cps "http://h/base/main.css") (cps "http://other/css/x.png")
+      = urljoin (cps "http://other/css/a.css") (cps "x.png") ∧
+    replacer (cps "http://other/css/a.css") (cps "/r.png") = .ok (cps "http://other/r.png") ∧
+    replacer (cps "http://other/css/a.css") (cps "//cdn/c.png") = .ok (cps "http://cdn/c.png") ∧
+    replacer (cps "//other/css/a.css") (cps "x.png") = .ok (cps "//other/css/x.png") ∧
+    replacer (cps "css/a.css") (cps "/r.png") = .ok (cps "/r.png") := by decide
 
-/-- C19-rebase-trailing-slash: `normpath` drops a trailing slash / final dot segment -/
-theorem rebase_drops_trailing_slash :
-    replacer (cps "css/a.css") (cps "img/") = .ok (cps "css/img") ∧
-    urljoin (cps "http://h/base/main.css") (cps "css/img") = .ok (cps "http://h/base/css/img") ∧
-    urljoin (cps "http://h/base/css/a.css") (cps "img/") = .ok (cps "http://h/base/css/img/") := by decide
+/-- was C19-rebase-trailing-slash -/
+theorem rebase_keeps_trailing_slash :
+    replacer (cps "css/a.css") (cps "img/") = .ok (cps "css/img/") ∧
+    urljoin (cps "http://h/base/main.css") (cps "css/img/") = urljoin (cps "http://h/base/css/a.css") (cps "img/") ∧
+    replacer (cps "css/a.css") (cps ".") = .ok (cps "css/") ∧
+    replacer (cps "css/a.css") (cps "..") = .ok (cps "./") := by decide
 
-/-- C19-rebase-reserved-chars: `quote(…, safe='/%')` percent-encodes characters that are legal in a path -/
-theorem rebase_encodes_reserved_characters :
-    replacer (cps "css/a.css") (cps "img@2x.png") = .ok (cps "css/img%402x.png") := by decide
+/-- was C19-rebase-reserved-chars; a first segment with a colon gets `./` in front -/
+theorem rebase_keeps_reserved_characters :
+    replacer (cps "css/a.css") (cps "img@2x.png") = .ok (cps "css/img@2x.png") ∧
+    replacer (cps "css/a.css") (cps "x.png;v=1") = .ok (cps "css/x.png;v=1") ∧
+    replacer (cps "a.css") (cps "./a:b.png") = .ok (cps "./a:b.png") ∧
+    replacer (cps "css/a.css") (cps "a b.png") = .ok (cps "css/a%20b.png") := by decide
 end
 
 /-! ## T19.3 — flattening
 
-Full statement (does NOT hold on every import tree, see the known findings below):
+Full statement (does NOT hold on every import tree, see the remaining known findings below):
   for every loaded tree, `resolveImports` returns a sheet with the same meaning — the rules of all reachable sheets in
   cascade order under the media of their @import edges, every URL resolving as before — and fetches nothing.
-It holds on trees described by `Flat` (every target available, every group with media consists of comments and style
-rules after flattening): -/
+What holds for EVERY tree: `resolveImports` does not raise HierarchyRequestErr (`resolveImports_never_raises_hierarchy`).
+The full specification holds on trees described by `Flat` (every target available, every group with media consists
+of comments and style rules after flattening); what is missing for the others is the place and the href of an
+@import that has to be kept (C19-kept-import-hoisted, C19-kept-import-not-rebased). -/
 
 /-- T19.3 [W1]: `resolveImports` computes exactly the specified flattening — cascade order, marker comment, re-basing
 with the @import's href, wrapping in the @import's media, @charset dropped — appended to the target, and no fetcher
-is called; for every virtual file system and every href of the sheets. Termination is by structural recursion on
+is called; for every virtual file system, fetcher and href of the sheets. Termination is by structural recursion on
 the import tree (the model has no fuel here). -/
-theorem resolveImports_flat_partial (vfs : Vfs) (href : Str) (sheet out : Sheet) (h : Flat sheet out) :
-    resolveImports vfs href sheet = ⟨.ok out, []⟩ := by
-  have := resolveRules_flat vfs h href []
+theorem resolveImports_flat_partial (vfs : Vfs) (who : Who) (href : Str) (sheet out : Sheet) (h : Flat sheet out) :
+    resolveImports vfs who href sheet = ⟨.ok out, []⟩ := by
+  have := resolveRules_flat vfs who h href []
   simpa [resolveImports] using this
 
 /-- … into an existing target the rules are appended in that order -/
-theorem resolveRules_flat_appends (vfs : Vfs) (href : Str) (target sheet out : Sheet) (h : Flat sheet out) :
-    resolveRules vfs href target sheet = ⟨.ok (target ++ out), []⟩ := resolveRules_flat vfs h href target
+theorem resolveRules_flat_appends (vfs : Vfs) (who : Who) (href : Str) (target sheet out : Sheet) (h : Flat sheet out) :
+    resolveRules vfs who href target sheet = ⟨.ok (target ++ out), []⟩ := resolveRules_flat vfs who h href target
 
 /-- every rule of the flattened sheet is a comment, style, @media, @page, @font-face or unknown rule: no @import,
 @charset or @namespace is left -/
 theorem flat_has_no_imports (sheet out : Sheet) (h : Flat sheet out) : ∀ r ∈ out, isPlain r = true := h.plain_out
+
+/-- T19.3, totality (was the known finding C19-media-import-of-kept-import-raises): for EVERY loaded import tree,
+virtual file system and fetcher, `resolveImports` does not raise HierarchyRequestErr — an @import that has to be kept
+makes the sheet it stands in "not combinable", so the @import of that sheet is kept too instead of being wrapped -/
+theorem resolveImports_never_raises_hierarchy (vfs : Vfs) (who : Who) (href : Str) (sheet : Sheet) :
+    (resolveImports vfs who href sheet).val ≠ .error .hierarchyRequestErr :=
+  resolveRules_ne_hier vfs who sheet href []
+
+/-- whatever passed `_combinable` is accepted by the @media proxy -/
+theorem media_proxy_accepts_combinable (rs : List Rule) (h : rs.all combinable = true) :
+    proxyAddAll [] rs = .ok rs := by
+  simpa using proxyAddAll_combinable rs [] h
 
 section
 open CssVerif.Proto
@@ -368,28 +439,30 @@ example : Flat
   have hr : replRules (replacer (cps "css/a.css")) [.style (cps "a") [⟨cps "background", [.uri (cps "i.png")], []⟩]]
       = .ok ([.style (cps "a") [⟨cps "background", [.uri (cps "css/i.png")], []⟩]], [cps "i.png"]) := by
     have : replacer (cps "css/a.css") (cps "i.png") = .ok (cps "css/i.png") := by decide
-    simp [replRules, replRule, replStyle, replComps, this]
+    simp [replRules, replRule, replStyle, replComps, replComp, this]
   have := Flat.imp (media := cps "print") (ihref := cps "http://h/css/a.css") h1 hr
     (Or.inr (by intro r hr; simp at hr; subst hr; rfl)) h2
   have hne : cps "print" ≠ cps "all" := by decide
   simpa [wrapMedia, mediaAll, hne] using this
 
-/-! ### known findings of the flattening, machine-checked on the model (each also fails on the implementation) -/
-
-/-- C19-media-import-of-kept-import-raises: `@import "a.css" print;` where `a.css` holds an @import that has to be
-kept (here: not available) — the kept @import is "combinable", the @media proxy refuses it, HierarchyRequestErr
-escapes from `resolveImports` -/
-theorem resolveImports_raises_on_kept_import_under_media :
-    (resolveImports [] (cps "http://h/m.css")
+/-- was C19-media-import-of-kept-import-raises: `@import "a.css" print;` where `a.css` holds an @import that has to
+be kept (here: not available) — now the @import of `a.css` is kept, after the marker comment.
+kinds: 1 = comment, 2 = @import -/
+theorem resolveImports_keeps_import_of_sheet_with_kept_import :
+    (resolveImports [] .user (cps "http://h/m.css")
       [.imp (cps "a.css") (cps "print") true (cps "http://h/a.css")
-        [.imp (cps "x.css") mediaAll false [] [], .style (cps "a") []]]).err? = some .hierarchyRequestErr := by
+        [.imp (cps "x.css") mediaAll false [] [], .style (cps "a") []]]).okMap
+          (fun t => (t.map Rule.tag, importHrefs t)) = some ([1, 2], [cps "a.css"]) := by
   decide +kernel
 
-/-- C19-unavailable-refetched: … and before that the unavailable target was fetched again, with the DEFAULT fetcher
-(the target sheet made by `resolveImports` has no fetcher of its own) -/
-theorem resolveImports_refetches_unavailable_with_default_fetcher :
-    (resolveImports [] (cps "http://h/m.css")
-      [.imp (cps "x.css") mediaAll false [] []]).log = [(.dflt, cps "http://h/x.css")] := by
+/-! ### the remaining known findings of the flattening, machine-checked on the model (each also fails on the
+implementation) -/
+
+/-- C19-unavailable-refetched: an unavailable target is fetched again when the kept @import is added to the
+flattened sheet — since the fix with the fetcher of the sheet that is resolved, not with the default fetcher -/
+theorem resolveImports_refetches_unavailable :
+    (resolveImports [] .user (cps "http://h/m.css")
+      [.imp (cps "x.css") mediaAll false [] []]).log = [(.user, cps "http://h/x.css")] := by
   decide +kernel
 
 /-- … and at parse time an unavailable target is fetched twice -/
@@ -401,7 +474,7 @@ theorem parse_fetches_unavailable_twice :
 the kept @import of b is put in front of the rules of a, which it used to follow in cascade order.
 kinds: 1 = comment, 2 = @import, 4 = style rule -/
 theorem kept_import_is_hoisted_over_merged_rules :
-    (resolveImports [] (cps "http://h/m.css")
+    (resolveImports [] .user (cps "http://h/m.css")
       [.imp (cps "a.css") mediaAll true (cps "http://h/a.css") [.style (cps "a") []],
        .imp (cps "b.css") (cps "print") true (cps "http://h/b.css") [.page [] [] []]]).okMap (·.map Rule.tag)
       = some [1, 2, 4, 1] := by decide +kernel
@@ -410,7 +483,7 @@ theorem kept_import_is_hoisted_over_merged_rules :
 `css/b.css` = `@page{}`: the kept `@import "b.css"` arrives in the flattened sheet with its href unchanged, where it
 means `b.css` next to the main sheet, not `css/b.css` -/
 theorem kept_nested_import_keeps_its_href :
-    (resolveImports [] (cps "http://h/m.css")
+    (resolveImports [] .user (cps "http://h/m.css")
       [.imp (cps "css/a.css") mediaAll true (cps "http://h/css/a.css")
         [.imp (cps "b.css") (cps "print") true (cps "http://h/css/b.css") [.page [] [] []]]]).okMap importHrefs
       = some [cps "b.css"] ∧
@@ -438,9 +511,9 @@ theorem parse_fetches_each_found_target_once_partial (vfs : Vfs) (href : Str) (r
 
 /-- … and `resolveImports` on a tree it can flatten completely calls no fetcher at all
 (`resolveImports_flat_partial` gives the empty log) -/
-theorem flatten_fetches_nothing_partial (vfs : Vfs) (href : Str) (sheet out : Sheet) (h : Flat sheet out) :
-    (resolveImports vfs href sheet).log = [] := by
-  rw [resolveImports_flat_partial vfs href sheet out h]
+theorem flatten_fetches_nothing_partial (vfs : Vfs) (who : Who) (href : Str) (sheet out : Sheet) (h : Flat sheet out) :
+    (resolveImports vfs who href sheet).log = [] := by
+  rw [resolveImports_flat_partial vfs who href sheet out h]
 
 /-! ## the fuel of the loader model is sufficient (so "termination" of loading is a theorem, not an assumption) -/
 
@@ -460,7 +533,7 @@ theorem parseSheet_noFuel (vfs : Vfs) (href : Str) (raw : Sheet) : (parseSheet v
 
 /-- … nor does the re-fetch that `CSSStyleSheet.add` does for an @import whose target was not found, nor anything
 else in `resolveImports`: the model's answers never depend on the fuel -/
-theorem resolveImports_noFuel (vfs : Vfs) (href : Str) (sheet : Sheet) :
-    (resolveImports vfs href sheet).val ≠ .error .fuel := resolveRules_ne_fuel vfs sheet href []
+theorem resolveImports_noFuel (vfs : Vfs) (who : Who) (href : Str) (sheet : Sheet) :
+    (resolveImports vfs who href sheet).val ≠ .error .fuel := resolveRules_ne_fuel vfs who sheet href []
 
 end CssVerif.C19
